@@ -1061,8 +1061,9 @@ void apply_logic_net(bool const *inp, {BITS_TO_DTYPE[32]} *out, size_t len) {{
         if ok and len(declared) > 1:
             # an image model takes the declared (channels, *image) layout, or samples that are flattened already
             ok = x.ndim == 2 or tuple(x.shape[1:]) == declared
-        elif ok and self.layer_order and self.layer_order[0][0] != 'flatten':
-            # a dense model without a leading Flatten takes (batch, in_dim) only, like its first LogicDense
+        elif ok and not (self.layer_order and self.layer_order[0][0] == 'flatten'):
+            # a dense model takes (batch, in_dim) only, like its first LogicDense, unless it is known to start with a Flatten
+            # (a handle returned by load() knows its declared input shape only)
             ok = x.ndim == 2
         if not ok:
             raise ValueError(f"expected a batch of samples of shape {declared}, got shape {tuple(x.shape)}")
